@@ -32,7 +32,7 @@ func init() {
 	vk.Register(&vk.Check{
 		ID:    "C05",
 		Level: "fault_enumeration",
-		Rule: "L1 (boundary): for every protocol the honest transcript is recorded; every message a victim receives is replaced - at the moment it would be delivered (early: possibly queued for a later round) or when it is the last message the victim waits for (late) - by one hostile variant: every node of its CBOR tree x structural malformations (deleted, null, wrong major type, empty, 1/3/31/33-byte, 4 KiB, 1 MiB, length prefixes 0 / 0xFFFFFFFF, collections of 0 / n+-1 / 100000 elements, huge and negative integers, indefinite / over-declared / 60-deep encodings, unknown keys), header malformations (recipient, sender, round, broadcast flag, session tag, protocol, payload, echo hash) and seeded random bytes / bit flips; the session then runs to quiescence through the real handlers; L2 (CMP, throughput): the round object of a victim in the target state is fed thousands of hostile payloads through the handler's decode + verify/store path, hits are re-executed at L1; restoring wire messages and stored material from arbitrary bytes is fuzzed as well, and every number / byte field of every stored type is replaced by oversized values (8 KiB and 64 KiB numbers that are 3 mod 4 without small factors, 64 KiB of 0xff, 1 MiB) with CPU and allocation measured per restore call; oracles per Accept call: no panic / process death, CPU <= 60 s, allocation <= 1 GiB, no blocked call, and a legal post-state (never value and error; a terminal error implies a closed channel; a closed channel implies a terminal result); " +
+		Rule: "L1 (boundary): for every protocol the honest transcript is recorded; every message a victim receives is replaced - at the moment it would be delivered (early: possibly queued for a later round) or when it is the last message the victim waits for (late) - by one hostile variant: every node of its CBOR tree x structural malformations (deleted, null, wrong major type, empty, 1/3/31/33-byte, 4 KiB, 1 MiB, length prefixes 0 / 0xFFFFFFFF, collections of 0 / n+-1 / 100000 elements, huge and negative integers, indefinite / over-declared / 60-deep encodings, unknown keys), header malformations (recipient, sender, round, broadcast flag, session tag, protocol, payload, echo hash), well-formed but wrong values (another valid scalar / point / number in place of the right one) and seeded random bytes / bit flips; the session then runs to quiescence through the real handlers; L2 (CMP, throughput): the round object of a victim in the target state is fed thousands of hostile payloads through the handler's decode + verify/store path, hits are re-executed at L1; restoring wire messages and stored material from arbitrary bytes is fuzzed as well, and every number / byte field of every stored type is replaced by oversized values (8 KiB and 64 KiB numbers that are 3 mod 4 without small factors, 64 KiB of 0xff, 1 MiB) with CPU and allocation measured per restore call; oracles per Accept call: no panic / process death, CPU <= 60 s, allocation <= 1 GiB, no blocked call, and a legal post-state (never value and error; a terminal error implies a closed channel; a closed channel implies a terminal result); " +
 			"distinct non-trivial = distinct (protocol, round, message kind, field path, malformation, timing) cases executed",
 		MinDistinct:  300,
 		Assumptions:  []string{"CPU and allocation are measured per call for the whole process (one case at a time per child); RLIMIT_AS 12 GiB turns allocation bombs into attributed process deaths", "the watchdog firing without a provable block or CPU overrun is inconclusive"},
@@ -134,6 +134,35 @@ func c05DataVariants(data []byte, r *vk.Rand, randomCount int) []c05Variant {
 			}})
 		}
 	}
+	// well-formed but wrong values (another valid scalar / point / number in place of the right one): every decoder
+	// and range check passes, only the last verification can notice
+	if root, err := adv.Decode(data); err == nil {
+		for _, site := range adv.Sites(root, 3) {
+			site := site
+			node := adv.Get(root, site)
+			for _, name := range adv.TypedNames(node) {
+				name := name
+				if name == "from-transcript" {
+					continue
+				}
+				vs = append(vs, c05Variant{class: "well-formed", path: site.Path, mut: "typed-" + name, build: func(o *protocol.Message, r *vk.Rand) *protocol.Message {
+					m := *o
+					rt, err := adv.Decode(o.Data)
+					if err != nil {
+						return &m
+					}
+					nv, ok := adv.ApplyTyped(adv.Get(rt, site), name, nil, r)
+					if !ok {
+						return &m
+					}
+					if b, err := adv.Encode(adv.With(rt, site, nv, false)); err == nil {
+						m.Data = b
+					}
+					return &m
+				}})
+			}
+		}
+	}
 	for k := 0; k < randomCount; k++ {
 		kind := []string{"bitflip", "truncate", "random-bytes", "insert", "byte-ff"}[k%5]
 		vs = append(vs, c05Variant{class: "random", path: "*", mut: "random-" + kind, build: func(o *protocol.Message, r *vk.Rand) *protocol.Message {
@@ -162,7 +191,9 @@ func c05DataVariants(data []byte, r *vk.Rand, randomCount int) []c05Variant {
 }
 
 // c05Run runs one session in which the victim's target message is replaced by a hostile variant.
-func c05Run(t *vk.T, c *camp, victim party.ID, tg c05Target, v c05Variant, timing string, keyPrefix string) {
+// c05Run returns false when the process is no longer fit for further measurements (a call never returned: its
+// goroutine may keep spinning or holding a lock).
+func c05Run(t *vk.T, c *camp, victim party.ID, tg c05Target, v c05Variant, timing string, keyPrefix string) bool {
 	r := t.Rng
 	injected := false
 	var maxCPU int64
@@ -210,7 +241,7 @@ func c05Run(t *vk.T, c *camp, victim party.ID, tg c05Target, v c05Variant, timin
 	})
 	if err != nil {
 		t.Inconclusive("%s: start failed: %v", desc, err)
-		return
+		return true
 	}
 	pnk, fr, txt := vk.Guard(func() { n.Run() })
 	t.Obs("evaluations", 1)
@@ -218,14 +249,14 @@ func c05Run(t *vk.T, c *camp, victim party.ID, tg c05Target, v c05Variant, timin
 	t.ObsMax("alloc_MiB_per_accept", int64(maxAlloc>>20))
 	if !injected {
 		t.Obs("targets_never_reached", 1)
-		return
+		return true
 	}
 	t.Distinct("%s|%s|%s|%s|%s|%s", c.name, tg, v.class, v.path, v.mut, timing)
 	t.Obs("class|"+v.class, 1)
 	key := keyPrefix + "|" + tg.String() + "|" + v.class
 	if pnk {
 		t.Violation(c.name+"|panic|"+fr, "%s: a participant panicked in %s: %s", desc, fr, truncStr(txt, 200))
-		return
+		return true
 	}
 	if n.AcceptHang != "" {
 		blocked := strings.Contains(n.AcceptHangDump, "pkg/protocol.(*MultiHandler).Accept") || strings.Contains(n.AcceptHangDump, "pkg/protocol.(*TwoPartyHandler).Accept")
@@ -237,7 +268,7 @@ func c05Run(t *vk.T, c *camp, victim party.ID, tg c05Target, v c05Variant, timin
 		default:
 			t.Inconclusive("%s: watchdog fired (%s)", desc, n.AcceptHang)
 		}
-		return
+		return false
 	}
 	if maxCPU > c05CPUBudgetNs {
 		t.Violation(c.name+"|cpu-exhaustion|"+tg.String()+"|"+v.mut, "%s: an Accept call used %d CPU-s", desc, maxCPU/1e9)
@@ -260,6 +291,7 @@ func c05Run(t *vk.T, c *camp, victim party.ID, tg c05Target, v c05Variant, timin
 		}
 	}
 	_ = key
+	return true
 }
 
 func c05Cases(env vk.Env) []vk.Case {
@@ -277,6 +309,12 @@ func c05Cases(env vk.Env) []vk.Case {
 			p, part := p, part
 			cs = append(cs, vk.Case{ID: fmt.Sprintf("L1/%s/part%d", p, part), Run: func(t *vk.T) { c05L1(t, p, part, parts, env.Pick(5, 40), env) }})
 			cs = append(cs, vk.Case{ID: fmt.Sprintf("L2/%s/part%d", p, part), Run: func(t *vk.T) { c05L2(t, p, part, parts, env.Pick(500, 5000)) }})
+		}
+	}
+	for _, p := range cmpProtos {
+		for tgt := 0; tgt < env.Pick(4, 12); tgt++ {
+			p, tgt := p, tgt
+			cs = append(cs, vk.Case{ID: fmt.Sprintf("pool-null/%s/target%d", p, tgt), Run: func(t *vk.T) { c05PoolNull(t, p, tgt) }})
 		}
 	}
 	cs = append(cs, vk.Case{ID: "restore-resource/cheap", Run: func(t *vk.T) { c05RestoreResource(t, false) }})
@@ -371,7 +409,10 @@ func c05L1(t *vk.T, proto string, part, parts, budget int, env vk.Env) {
 		mine = pick
 	}
 	for ji, j := range mine {
-		c05Run(t, c, victim, j.tg, j.v, j.timing, proto)
+		if !c05Run(t, c, victim, j.tg, j.v, j.timing, proto) {
+			t.Obs("cases_cut_short_after_a_call_that_never_returned", 1)
+			break
+		}
 		if ji == 0 && part == 0 {
 			t.Sample(map[string]any{"level": "L1", "protocol": proto, "victim": string(victim), "target": j.tg.String(), "variant": j.v.class + "/" + j.v.path + "/" + j.v.mut, "timing": j.timing})
 		}
@@ -379,7 +420,18 @@ func c05L1(t *vk.T, proto string, part, parts, budget int, env vk.Env) {
 }
 
 // c05L2 feeds hostile payloads to the round object of a victim in the target state.
-func c05L2(t *vk.T, proto string, part, parts, budget int) {
+func c05L2(t *vk.T, proto string, part, parts, budget int) { c05L2x(t, proto, part, parts, budget, "", -1) }
+
+// c05PoolNull: every target state of a CMP protocol running WITH a worker pool is fed the payloads in which one
+// field is CBOR null (the shape that makes verification code panic, possibly inside a pooled task); the submitting
+// call must still return.
+func c05PoolNull(t *vk.T, proto string, target int) {
+	campForcePool = true
+	defer func() { campForcePool = false }()
+	c05L2x(t, proto, 0, 1, 60, "null", target)
+}
+
+func c05L2x(t *vk.T, proto string, part, parts, budget int, onlyMut string, target int) {
 	r := t.Rng
 	c := buildCamp(t, proto, 3)
 	if c == nil {
@@ -409,6 +461,12 @@ func c05L2(t *vk.T, proto string, part, parts, budget int) {
 		return
 	}
 	tg := uniq[part%len(uniq)]
+	if target >= 0 {
+		if target >= len(uniq) {
+			return
+		}
+		tg = uniq[target]
+	}
 	// bring the victim to the state in which the target is the only message it still waits for
 	var vh protocol.Handler
 	held := false
@@ -452,6 +510,15 @@ func c05L2(t *vk.T, proto string, part, parts, budget int) {
 		}
 	}
 	vs := c05DataVariants(tr[tg], r, budget/4)
+	if onlyMut != "" {
+		var f []c05Variant
+		for _, v := range vs {
+			if v.mut == onlyMut {
+				f = append(f, v)
+			}
+		}
+		vs = f
+	}
 	perm := r.Perm(len(vs))
 	if len(perm) > budget {
 		perm = perm[:budget]
@@ -462,29 +529,42 @@ func c05L2(t *vk.T, proto string, part, parts, budget int) {
 		hm := v.build(&protocol.Message{Data: tr[tg]}, r)
 		t.Note(proto+"|L2|"+tg.String()+"|"+v.path+"|"+v.mut, "")
 		var cpu0 = time.Now()
-		pnk, fr, _ := vk.Guard(func() {
-			var content round.Content
-			if tg.bcast {
-				b, ok := sess.(round.BroadcastRound)
-				if !ok {
+		var pnk bool
+		var fr string
+		callDone := make(chan struct{})
+		go func() {
+			defer close(callDone)
+			pnk, fr, _ = c05L2Call(sess, tg, victim, hm)
+		}()
+		blockedCall := false
+	waitCall:
+		for k := 0; ; k++ {
+			select {
+			case <-callDone:
+				break waitCall
+			case <-time.After(2 * time.Second):
+				if k < 30 {
+					continue // CMP verification legitimately takes seconds
+				}
+				c1 := sim.CPUNanos()
+				time.Sleep(3 * time.Second)
+				buf := make([]byte, 1<<20)
+				dump := string(buf[:runtime.Stack(buf, true)])
+				idle := sim.CPUNanos()-c1 < 3e8
+				if idle && strings.Contains(dump, "pkg/pool.(*Pool).Parallelize") {
+					blockedCall = true
+					break waitCall
+				}
+				if k > 300 {
+					t.Inconclusive("%s: L2 call on %s %s/%s still active after 10 min", proto, tg, v.path, v.mut)
 					return
 				}
-				content = b.BroadcastContent()
-				if err := cbor.Unmarshal(hm.Data, content); err != nil {
-					return
-				}
-				_ = b.StoreBroadcastMessage(round.Message{From: tg.from, To: "", Content: content, Broadcast: true})
-				return
 			}
-			content = sess.MessageContent()
-			if content == nil {
-				return
-			}
-			if err := cbor.Unmarshal(hm.Data, content); err != nil {
-				return
-			}
-			_ = sess.VerifyMessage(round.Message{From: tg.from, To: victim, Content: content})
-		})
+		}
+		if blockedCall {
+			t.Violation(proto+"|call-blocked-in-pool|"+tg.String(), "%s: verifying a %s payload with %s=%s never returns: the caller is parked in Pool.Parallelize while the process is idle (a pooled task ended without notifying it)", proto, tg, v.path, v.mut)
+			return
+		}
 		t.Obs("evaluations", 1)
 		t.Obs("L2_payloads", 1)
 		t.Distinct("%s|L2|%s|%s|%s|%s", proto, tg, v.class, v.path, v.mut)
@@ -512,6 +592,33 @@ func c05L2(t *vk.T, proto string, part, parts, budget int) {
 	if part == 0 {
 		t.Sample(map[string]any{"level": "L2", "protocol": proto, "victim": string(victim), "target": tg.String(), "payloads": len(perm), "hits_replayed_at_boundary": len(reported)})
 	}
+}
+
+// c05L2Call applies the handler's decode + verify/store path to one payload on the victim's round object.
+func c05L2Call(sess round.Session, tg c05Target, victim party.ID, hm *protocol.Message) (bool, string, string) {
+	return vk.Guard(func() {
+		var content round.Content
+		if tg.bcast {
+			b, ok := sess.(round.BroadcastRound)
+			if !ok {
+				return
+			}
+			content = b.BroadcastContent()
+			if err := cbor.Unmarshal(hm.Data, content); err != nil {
+				return
+			}
+			_ = b.StoreBroadcastMessage(round.Message{From: tg.from, To: "", Content: content, Broadcast: true})
+			return
+		}
+		content = sess.MessageContent()
+		if content == nil {
+			return
+		}
+		if err := cbor.Unmarshal(hm.Data, content); err != nil {
+			return
+		}
+		_ = sess.VerifyMessage(round.Message{From: tg.from, To: victim, Content: content})
+	})
 }
 
 // c05Restore fuzzes the decoders of wire messages and stored material with arbitrary bytes.
